@@ -332,6 +332,24 @@ def gen():
          "enqueue() = for_each_async(|e| sender.send(e.into()))")
     stop_body = body_or_empty(node_code, r"pub fn stop\(&self\)\s*\{", "node.rs::stop")
     defB("NODE_STOP_CLEARS_RUNNING", bool(re.search(r"running\.store\(\s*false", stop_body)), "NodeHandler::stop stores false into the running flag")
+    # the callback lock (C05): the user callback is wrapped once per listener mode in Arc<std::sync::Mutex<..>>,
+    # every invocation after that happens through a guard bound from multiplexed.lock(), and the only
+    # `unsafe` of the file is the Send impl of the wrapper that carries the Arc to the signal thread
+    def mux_ok(body):
+        k = body.find("Arc::new(Mutex::new(event_callback))")
+        if k < 0:
+            return False
+        after = body[k:]
+        calls = len(re.findall(r"\(\s*NodeEvent::(?:Network|Signal)\(", after))
+        named = len(re.findall(r"\bevent_callback\(\s*NodeEvent::(?:Network|Signal)\(", after))
+        guards = len(re.findall(r"let mut event_callback\s*=\s*multiplexed(?:\.0)?\s*\.lock\(\)", " ".join(after.split())))
+        return calls >= 1 and calls == named == guards
+    fe = body_or_empty(node_code, r"pub fn for_each\(mut self,", "node.rs::for_each")
+    fa = body_or_empty(node_code, r"pub fn for_each_async\(", "node.rs::for_each_async")
+    std_mutex = bool(re.search(r"use std::sync::\{[^}]*\bMutex\b[^}]*\}", node_code)) and len(re.findall(r"\bMutex\b", node_code.split("use std::sync::")[0])) == 0
+    lock_ok = std_mutex and mux_ok(fe) and mux_ok(fa) and len(re.findall(r"\bunsafe\b", node_code)) == 1 and "try_lock" not in node_code and \
+        bool(re.search(r"unsafe impl<S> Send for SendableEventCallback<'_, S> \{\}", node_code)) and not re.search(r"\*(const|mut)\b", node_code)
+    defB("NODE_CALLBACK_ONLY_UNDER_STD_MUTEX", lock_ok, "for_each / for_each_async: Arc<std Mutex<callback>>, every invocation through a guard of multiplexed.lock(), no unsafe but the Send impl")
     emit("")
 
     # ---- transport.rs tables ----------------------------------------------------------------
